@@ -284,6 +284,7 @@ Proof.
   - inversion BL as [|? ? B0 BL']; subst. destruct B0 as [f [r [Hin [Hg [Ed Es]]]]]. cbn [fst snd] in Hg, Ed, Es. subst d src.
     cbn [second_pass]. rewrite Cv. cbn [fixed v_backlog_chdir].
     rewrite (chdir_ok _ f r Hin (Good_fs _ _ H)).
+    destruct (backlog_verify fixed (w_fs w) (pf_dir f) (pf_rel f) dst); [intros E; inversion E; subst; assumption|].
     destruct (renamer c w (pf_dir f) (pf_rel f) dst false) as [w1 [e1|]] eqn:R;
       pose proof (ren_ok f r dst w w1 _ Hin H R) as H1; pose proof (renamer_answers _ _ _ _ _ _ _ _ R) as A1.
     + assert (AW1 : answers_within c w1) by (intros a Ha; apply AW; rewrite <- A1; assumption).
